@@ -1,13 +1,14 @@
 #!/bin/bash
 # Runs every seeded change against the check of its property (in a scratch worktree, never in /repo) and prints one line
 # per seed: detected (exit 1 + VIOLATION) or MISSED.  Results -> seeded/RESULTS.txt
-# usage: seeds_all.sh [lanes]   (lanes > 1: that many seeds are checked side by side)
+# usage: seeds_all.sh [lanes]   (lanes > 1: that many seeds are checked side by side; SEEDS_DONE=<file> reuses the lines of an earlier partial run)
 cd "$(dirname "$0")/.."
 lanes=${1:-1}
 out=seeded/RESULTS.txt
 tmp=$(mktemp -d /tmp/seedsall-XXXXXX)
 one() {
   d=$1; sid=$(basename $d); pid=$(python3 -c "import json; print(json.load(open('$d/meta.json'))['property'])")
+  if [ -n "$SEEDS_DONE" ] && grep -q "^$sid (" $SEEDS_DONE; then grep "^$sid (" $SEEDS_DONE > $tmp/$sid.res; return; fi  # result of an earlier partial run
   if grep -q '"retired"' $d/meta.json; then echo "$sid ($pid): retired (no longer applies to HEAD as a valid seed, see meta.json)" > $tmp/$sid.res; cat $tmp/$sid.res; return; fi
   SEEDCHECK_TAG=_$sid bin/seed_check.sh $d/patch.diff $pid > $tmp/$sid.log 2>&1
   rm -f /tmp/seedcheck_${pid}_$sid.log
